@@ -530,6 +530,13 @@ def collect_filters(fn: ast.AST) -> List[Dict[str, object]]:
             g = n.generators[0]
             out.append({'iter': norm(g.iter), 'var': norm(g.target), 'elt': norm(n.elt), 'conds': [norm(i).replace(' ', '') for i in g.ifs], 'node': n,
                         'terms': [c for i in g.ifs for c in conjuncts(term(i, True))]})
+        if isinstance(n, (ast.ListComp, ast.GeneratorExp)) and len(n.generators) == 2 and isinstance(n.elt, ast.Name) and norm(n.generators[0].target) == n.elt.id \
+                and not isinstance(n.generators[1].iter, ast.Subscript):
+            # [x for x in XS for y in x.ys if P(y)]: x is produced once for EVERY y that passes - a selection with multiplicity, not a filter
+            g, g2 = n.generators
+            out.append({'iter': norm(g.iter), 'var': norm(g.target), 'elt': norm(n.elt), 'node': n, 'multi': True,
+                        'conds': [norm(i).replace(' ', '') for i in g.ifs] + [f'once-per-{norm(g2.target)}-in-{norm(g2.iter)}'] + [norm(i).replace(' ', '') for i in g2.ifs],
+                        'terms': [('once-per', norm(g2.target), norm(g2.iter))] + [c for i in g.ifs + g2.ifs for c in conjuncts(term(i, True))]})
         if isinstance(n, ast.For):
             var = norm(n.target)
 
